@@ -80,7 +80,7 @@ func DecodeTrun(hdr BoxHeader, startPos uint64, r io.Reader) (Box, error) {
 		t.Samples = append(t.Samples, Sample{flags, dur, size, cto})
 	}
 
-	return t, nil
+	return t, s.AccError()
 }
 
 // DecodeTrun - box-specific decode
